@@ -26,9 +26,9 @@ import (
 )
 
 type secretStats struct {
-	Ops, Scenarios, Secrets, Haystacks, Searches, DealPairs, WrongPasswords, RoundPairs, NoncesSeen, SealedValues, RotatedRounds int
-	OutcomeHist                                                                                                                  map[string]int
-	Monitors, Notes, Samples                                                                                                     []string
+	Ops, Scenarios, Secrets, Haystacks, Searches, DealPairs, WrongPasswords, RoundPairs, NoncesSeen, SealedValues, RotatedRounds, LookAlikeRounds int
+	OutcomeHist                                                                                                                                   map[string]int
+	Monitors, Notes, Samples                                                                                                                      []string
 }
 
 type secretRun struct {
@@ -431,6 +431,55 @@ func (r *secretRun) scenario(outDir string, n, t int) {
 	_ = storage.Message{}
 }
 
+// lookAlikes: a key generation among participants whose names differ only in the case of a letter: what is dealt to "Bob"
+// opens with Bob's key, not with bob's
+func (r *secretRun) lookAlikes(outDir string) {
+	clusterNames = []string{"bob", "Bob", "carol"}
+	defer func() { clusterNames = nil }()
+	dir, _ := os.MkdirTemp(outDir, "alike")
+	defer os.RemoveAll(dir)
+	c, err := newCluster(dir, 3, "right-password")
+	if err != nil {
+		r.mon("harness: " + err.Error())
+		return
+	}
+	defer c.close()
+	tag := "(n=3,t=2, participants bob, Bob, carol)"
+	round, err := c.startDKG(2)
+	if err != nil {
+		r.mon("harness: " + err.Error())
+		return
+	}
+	c.pump(60)
+	r.st.LookAlikeRounds++
+	suite := bls12381.NewBLS12381Suite(nil)
+	for _, m := range c.boardMessages() {
+		if m.Event != "event_dkg_deal_confirm_received" || m.RecipientAddr == m.SenderAddr || m.DkgRoundID != round {
+			continue
+		}
+		var req requests.DKGProposalDealConfirmationRequest
+		if json.Unmarshal(m.Data, &req) != nil {
+			continue
+		}
+		for i, nd := range c.nodes {
+			r.st.DealPairs++
+			pt, err := ecies.Decrypt(suite, nd.air.VerifSecKey(), req.Deal, suite.Hash)
+			opened := err == nil && len(pt) > 0
+			if nd.name == m.RecipientAddr && !opened {
+				r.mon(fmt.Sprintf("C04 deal_only_for_addressee: %s the deal at offset %d for %q does not open with that participant's key", tag, m.Offset, m.RecipientAddr))
+			} else if nd.name != m.RecipientAddr && opened {
+				r.mon(fmt.Sprintf("C04 deal_only_for_addressee: %s the deal at offset %d for %q opens with the key of %q (machine %d)", tag, m.Offset, m.RecipientAddr, nd.name, i))
+			}
+		}
+	}
+	for i, nd := range c.nodes {
+		if st := c.roundState(nd, round); st != "stage_signing_idle" {
+			r.mon(fmt.Sprintf("C04 deal_only_for_addressee: %s node %d (%s) ended the key generation in %s", tag, i, nd.name, st))
+			break
+		}
+	}
+}
+
 func runSecretDiff(outDir string, seed int64, tier string) {
 	os.MkdirAll(outDir, 0o755)
 	airgapped.N = 1 << 10
@@ -446,6 +495,7 @@ func runSecretDiff(outDir string, seed int64, tier string) {
 	for _, cf := range cfgs {
 		r.scenario(outDir, cf[0], cf[1])
 	}
+	r.lookAlikes(outDir)
 	r.ops.Flush()
 	r.obs.Flush()
 	fo.Close()
